@@ -187,6 +187,8 @@ def run_system(text, ops_seed, sched_kwargs, n_generators=1, faults=None, props=
                 # faults scheduled for this task at this point
                 fl = fault_plan.pop((gi, t["yields"]), [])
                 handled = False
+                embed_armed = False
+                world.embed_fault_at = None
                 for f in fl:
                     kind = f["kind"]
                     stats["fault:" + kind] = stats.get("fault:" + kind, 0) + 1
@@ -220,7 +222,12 @@ def run_system(text, ops_seed, sched_kwargs, n_generators=1, faults=None, props=
                         handled = True
                     elif kind in ("rng_raise", "rng_interrupt"):
                         sched.faults[sched.calls + f.get("offset", 0)] = "raise" if kind == "rng_raise" else "interrupt"
+                    elif kind == "embed_fail":
+                        # the embedding of the (offset mod 4)-th residue built inside this resumption yields no conformer
+                        world.embed_fault_at = world.embed_calls + f.get("offset", 0) % 4
+                        embed_armed = True
                     if handled:
+                        world.embed_fault_at = None
                         # a replacement generator must behave like a fresh one
                         if f.get("respawn", True):
                             new_gen()
@@ -243,6 +250,10 @@ def run_system(text, ops_seed, sched_kwargs, n_generators=1, faults=None, props=
                             if kf in armed and kf >= calls_before and not any(fi[0] == kf for fi in sched.fired):
                                 del sched.faults[kf]
                                 stats["fault_not_reached"] = stats.get("fault_not_reached", 0) + 1
+                        if world.embed_fault_at is not None:
+                            if embed_armed and not any(e["k"] == "fault" and e["kind"] == "embed_fail" for e in world.log[-600:]):
+                                stats["fault_not_reached"] = stats.get("fault_not_reached", 0) + 1
+                            world.embed_fault_at = None
                 except StopIteration:
                     t["done"] = True
                     world.event({"k": "op", "op": "stop", "g": gi, "mass": t["mass"]})
@@ -257,6 +268,7 @@ def run_system(text, ops_seed, sched_kwargs, n_generators=1, faults=None, props=
                 except (InjectedRngError, InjectedInterrupt) as exc:
                     t["done"] = True
                     t["dead"] = "rng_fault"
+                    stats["fault_fired:rng"] = stats.get("fault_fired:rng", 0) + 1
                     world.event({"k": "op", "op": "raised", "g": gi, "exc": type(exc).__name__})
                     try:
                         next(t["gen"])
@@ -283,6 +295,13 @@ def run_system(text, ops_seed, sched_kwargs, n_generators=1, faults=None, props=
                     world.event({"k": "op", "op": "raised", "g": gi, "exc": type(exc).__name__})
                     if not expect_generable:
                         continue  # refusal
+                    if embed_armed and any(e["k"] == "fault" and e["kind"] == "embed_fail" for e in world.log[-600:]):
+                        # the injected embedding failure ended this resumption: the faulted call may raise, nothing else
+                        world.embed_fault_at = None
+                        stats["fault_fired:embed_fail"] = stats.get("fault_fired:embed_fail", 0) + 1
+                        t["dead"] = "embed_fault"
+                        new_gen()
+                        continue
                     feats = ["exc=" + type(exc).__name__]
                     if "updating stopped" in str(exc):
                         feats.append("msg=updating stopped")
@@ -292,6 +311,7 @@ def run_system(text, ops_seed, sched_kwargs, n_generators=1, faults=None, props=
                     viols.append({"property": "C13", "invariant": "member_generation_raised",
                                   "msg": f"next() raised {exc!r} ({traceback.format_exc()[-300:]})", "features": feats})
                     continue
+                world.embed_fault_at = None
                 # a member was yielded ---------------------------------------------------
                 if not expect_generable:
                     viols.append({"property": "C13", "invariant": "non_generable_system_generates",
